@@ -38,7 +38,7 @@ PROPERTIES = {
         units=['wire', 'kani_wire'],
         canaries=['wire'],
         counterexample=cex.cex_c07,
-        extra=[validate.bincode_golden, validate.frame_boundary, validate.decode_sweep],
+        extra=[validate.bincode_golden, validate.frame_boundary, validate.decode_sweep, validate.write_sequence],
         scope='exact byte layout of requests and responses (writer postcondition independent of the reader: preamble(version) ++ '
               'frame(bincode header) ++ frame(body)), lossless round trip and rejection of every strict prefix as lemmas over writer and reader '
               'contracts, readers accept exactly the valid messages and never panic, extensions never travel and decoded messages start with '
@@ -65,7 +65,7 @@ PROPERTIES = {
         units=['wire', 'kani_wire', 'timeout', 'kani_timeout'],
         canaries=['wire', 'streams'],
         counterexample=cex.cex_c06,
-        extra=[validate.decode_sweep],
+        extra=[validate.decode_sweep, validate.hostile_streams],
         scope='NARROW: every function anemo itself runs on attacker-controlled bytes before the user service is called returns an error instead '
               'of panicking, for every byte string: read_version_frame (Kani, all inputs), read_request / read_response, from_raw, Version::new, '
               'StatusCode::new, try_parse_timeout, both Timeout::call, and BiStreamRequestHandler::handle swallows the error so only that stream ends. '
@@ -130,7 +130,7 @@ PROPERTIES = {
     'C03': dict(
         units=['active_peers', 'crypto', 'wire', 'enum_glue'],
         canaries=['dialing', 'streams'],
-        extra=[validate.history_c03],
+        extra=[validate.history_c03, validate.cert_corpus],
         scope='glue only: (a) the pinning verifier accepts a server certificate only if its public key is the expected identity AND the base verifier accepts it, '
               'and proof of key possession (handshake signature) is delegated unchanged to rustls restricted to Ed25519; (b) a dial with an expected identity goes through '
               'connect_with_expected_peer_id(addr, id), one without through connect(addr); (c) a successful result registers the connection in the active-peer set and THEN answers '
@@ -154,6 +154,7 @@ PROPERTIES = {
     'C01': dict(
         units=['crypto', 'wire', 'enum_glue'],
         canaries=['streams'],
+        extra=[validate.cert_corpus],
         scope='GLUE ONLY (cryptography and X.509 parsing are uninterpreted): the PeerId of a connection is the public key parsed from the FIRST certificate of '
               'the chain authenticated in that connection\'s own handshake; every handshake-signature callback delegates unchanged to rustls restricted to Ed25519 '
               '(never accepts unconditionally, never widens the algorithm list); client authentication is offered and mandatory; the pinning verifier requires key == expected identity; '
@@ -168,7 +169,7 @@ PROPERTIES = {
     'C02': dict(
         units=['wire', 'kani_wire'],
         canaries=['wire', 'streams'],
-        extra=[validate.bincode_golden, validate.rpc_pairing],
+        extra=[validate.bincode_golden, validate.rpc_pairing, validate.write_sequence],
         scope='PER STREAM ONLY: the caller writes exactly the encoding of its request to the send half of ONE freshly opened bidirectional stream, finishes it, and returns exactly '
               '(status, headers, body) decoded from the receive half of that same stream; the serving side decodes one request from its stream, hands exactly that request to the '
               'service AT MOST ONCE (ghost call log), and writes exactly the encoding of the response the handler produced for it to the send half of the same stream; a malformed '
@@ -180,7 +181,7 @@ PROPERTIES = {
     ),
 }
 
-HOOK_COMMITS = ['5546537']
+HOOK_COMMITS = ['5546537', '2fcdddd']
 NOTES = ('Every check re-extracts the functions it depends on from /repo\'s working tree, renders them with contracts and runs the verifiers; '
          'exit 0 held, exit 1 VIOLATION, exit 2 undecided (lost anchor / construct the verifier rejects / timeout) - never an alarm.')
 PENDING = 'within reach of the technique (DESIGN.md section 5) but its unit is not built yet; not claimed until it runs green with guards'
